@@ -31,7 +31,11 @@ How C++ becomes Lean (assumptions of the translation, listed in the MANIFEST not
   * `for(i = X.begin(), end = X.end(); i != end;) switch(i->state) {…}` whose every path either does `i = X.remove(i); break;`
     or rewrites `i->state` and reaches `++i` -> `H.slotsFilterMap` with the per-node function read off the switch (fall-through
     included);
-  * `a && b` with an assignment inside: nested `if`s in evaluation order; the value of `(x = y)` is y;
+  * `a && b` with an assignment inside: nested `if`s in evaluation order; the value of `(x = y)` is y; `a || b` alike;
+  * the condition C of a search loop: when C is, by its truth table over the comparisons in it, a conjunction of comparisons
+    and negated comparisons, it is WRITTEN as that conjunction (comparisons oriented `node.field == value`, sorted) - so
+    `a && b && !c`, `!(c || !a || !b)` and `b && !c && a` give the same text (`search_pred`); `p != 0` on a pointer = `p`;
+  * a local `bool` / enum object takes its value at the declaration (`let v_name := …`); `c ? a : b` on values = `if c then a else b`;
   * `return;` / falling off the end = the current heap;
   * Map iteration order: `H.sigKeys` / `H.lKeys` give the keys in the model's (insertion) order; the C++ Map visits them in key
     order - theorems `dtor_listener_order_irrelevant` / `dtor_emitter_order_irrelevant` (PropsOrder.lean) show that the order
@@ -288,8 +292,9 @@ class Parser:
 
     def oror(self):
         a = self.andand()
-        if self.peek() == "||":
-            raise Refuse(f"{self.fn}: operator `||` is outside the translated subset")
+        while self.peek() == "||":
+            self.eat()
+            a = ("or", a, self.andand())
         return a
 
     def andand(self):
@@ -484,8 +489,10 @@ class Tr:
                 v = self.ev(e, env, lines)
                 if v.kind in ("sigit", "lit") and "Iterator" not in ty:
                     self.refuse(f"`{name}`: an iterator stored in a non-iterator")
-                if v.kind in ("val", "E", "L") and "&" not in ty and v.kind == "val" and v.ty == "act":
-                    pass
+                if v.kind == "val" and "&" not in ty and "*" not in ty and v.ty in ("bool", "state"):
+                    # a local object (not a reference): its value is taken now
+                    lines.append(f"let v_{name} := {v.term}")
+                    v = V("val", term=f"v_{name}", ty=v.ty)
                 env[name] = v
             return "".join(f"{ind}{l}\n" for l in lines) + self.tr(rest, cont, env, ind)
         if k == "if":
@@ -513,6 +520,8 @@ class Tr:
             return self.cond(e[1], env, ind, lambda i: self.cond(e[2], env, i, then_, else_), else_)
         if e[0] == "not":
             return self.cond(e[1], env, ind, else_, then_)
+        if e[0] == "or":
+            return self.cond(e[1], env, ind, then_, lambda i: self.cond(e[2], env, i, then_, else_))
         lines = []
         v = self.ev(e, env, lines)
         c = self.truth(v)
@@ -532,6 +541,8 @@ class Tr:
         """a condition without side effects as one Bool term"""
         if e[0] == "and":
             return f"({self.pure_bool(e[1], env)} && {self.pure_bool(e[2], env)})"
+        if e[0] == "or":
+            return f"({self.pure_bool(e[1], env)} || {self.pure_bool(e[2], env)})"
         if e[0] == "not":
             return f"(!{self.pure_bool(e[1], env)})"
         lines = []
@@ -539,6 +550,65 @@ class Tr:
         if lines:
             self.refuse("side effect in a loop condition")
         return self.truth(v)
+
+    def search_pred(self, e, env, x):
+        """the condition of a search loop over the node `x`.  A Boolean combination of comparisons that is equivalent (truth
+        table over the comparisons) to a conjunction of comparisons and negated comparisons is written as that conjunction,
+        comparisons oriented `x.field == value` and sorted: `a && b && !c`, `!(c || !a || !b)`, `b && !c && a` give one text"""
+        atoms = {}
+
+        def walk(t):
+            if t[0] in ("and", "or"):
+                return (t[0], walk(t[1]), walk(t[2]))
+            if t[0] == "not":
+                return ("not", walk(t[1]))
+            if t[0] in ("eq", "ne"):
+                lines = []
+                a = self.ev(t[1], env, lines)
+                b = self.ev(t[2], env, lines)
+                if lines:
+                    self.refuse("side effect in a loop condition")
+
+                def term(v):
+                    if v.kind == "val" and v.ty == "state":
+                        return v.term
+                    return self.nat(v)
+                ta, tb = term(a), term(b)
+                if tb.startswith(x + ".") and not ta.startswith(x + "."):
+                    ta, tb = tb, ta
+                key = (ta, tb)
+                atoms[key] = None
+                return ("atom", key) if t[0] == "eq" else ("not", ("atom", key))
+            return None
+        f = walk(e)
+
+        def has_none(t):
+            return t is None or (t[0] in ("and", "or") and (has_none(t[1]) or has_none(t[2]))) or (t[0] == "not" and has_none(t[1]))
+        if has_none(f) or len(atoms) > 6:
+            return self.pure_bool(e, env)
+        keys = sorted(atoms)
+
+        def val(t, asg):
+            if t[0] == "atom":
+                return asg[t[1]]
+            if t[0] == "not":
+                return not val(t[1], asg)
+            if t[0] == "and":
+                return val(t[1], asg) and val(t[2], asg)
+            return val(t[1], asg) or val(t[2], asg)
+        sat = []
+        for m in range(1 << len(keys)):
+            asg = {k: bool(m >> i & 1) for i, k in enumerate(keys)}
+            if val(f, asg):
+                sat.append(asg)
+        fixed = [(k, sat[0][k]) for k in keys if sat and all(a[k] == sat[0][k] for a in sat)]
+        if not sat or len(sat) != 1 << (len(keys) - len(fixed)) or not fixed:
+            return self.pure_bool(e, env)
+        lits = [f"({k[0]} {'==' if pos else '!='} {k[1]})" for k, pos in fixed]
+        out = lits[0]
+        for l in lits[1:]:
+            out = f"({out} && {l})"
+        return out
 
     # --- loops
     def loop(self, s, env, ind):
@@ -603,7 +673,7 @@ class Tr:
         x = self.fresh("x")
         env1 = dict(env)
         env1[name] = V("sval", x=x) if kind == "slist" else V("lsval", x=x)
-        pred = self.pure_bool(b[1], env1)
+        pred = self.search_pred(b[1], env1, x)
         i = self.fresh("i")
         env2 = dict(env)
         env2[name] = V("sit", e=X.e, g=X.g, k=i) if kind == "slist" else V("lsit", l=X.l, e=X.e, k=i)
@@ -816,6 +886,10 @@ class Tr:
                     if y.of != x.container():
                         self.refuse("iterator compared with the end of another container")
                     return V("val", term=(x.present if neg else f"(!{x.present})"), ty="bool")
+            for x, y in ((a, b), (b, a)):
+                # `p != 0` / `p == 0` on an activation pointer
+                if x.kind == "val" and x.ty == "act" and y.kind == "val" and y.ty == "act" and y.term == "none" and x.term != "none":
+                    return V("val", term=(f"({x.term}).isSome" if neg else f"(!({x.term}).isSome)"), ty="bool")
             if a.kind == "val" and b.kind == "val" and a.ty == b.ty == "state":
                 return V("val", term=f"({a.term} {'!=' if neg else '=='} {b.term})".replace("(.", "(SlotState."), ty="bool") \
                     if a.term.startswith(".") else V("val", term=f"({a.term} {'!=' if neg else '=='} {b.term})", ty="bool")
@@ -823,13 +897,13 @@ class Tr:
         if k == "not":
             v = self.ev(e[1], env, lines)
             return V("val", term=f"(!{self.truth(v)})", ty="bool")
-        if k == "and":
+        if k in ("and", "or"):
             a = self.ev(e[1], env, lines)
             n = len(lines)
             b = self.ev(e[2], env, lines)
             if len(lines) != n:
-                self.refuse("side effect on the right of `&&` in a value context")
-            return V("val", term=f"({self.truth(a)} && {self.truth(b)})", ty="bool")
+                self.refuse("side effect on the right of `&&` / `||` in a value context")
+            return V("val", term=f"({self.truth(a)} {'&&' if k == 'and' else '||'} {self.truth(b)})", ty="bool")
         if k == "deref":
             v = self.ev(e[1], env, lines)
             return self.deref(v)
@@ -865,6 +939,9 @@ class Tr:
         la, lb = [], []
         a = self.ev(e[2], env, la)
         b = self.ev(e[3], env, lb)
+        if a.kind == "val" and b.kind == "val" and a.ty == b.ty and not la and not lb:
+            lines += cl
+            return V("val", term=f"(if {self.truth(c)} then {a.term} else {b.term})", ty=a.ty)
         if a.key() != b.key():
             self.refuse(f"the two arms of `?:` denote different places ({a} / {b})")
         lines += cl
